@@ -21,7 +21,7 @@ TECHNIQUE = "runtime monitoring: event log on traced locks/file operations of th
 RULE = (
     "cases = schedules of short histories: 2..4 workers x 1..3 calls (evaluate with distinct and colliding subject names, "
     "make_statistic) on one shared aggregator. Controlled scheduler on threads: seeded random walk, PCT with d in {1,2,3}, "
-    "preemption-bounded systematic search (2 workers bound 2, 3 workers bound 1), and the same random/PCT strategies with every source line of the aggregator / statistics modules and of shutil as an additional scheduling point (sys.monitoring); noise mode (random sleeps at scheduling "
+    "preemption-bounded systematic search (2 workers bound 2, 3 workers bound 1; thorough also 3 workers bound 2 and 4 workers bound 1, up to 8000 schedules per history), and the same random/PCT strategies with every source line of the aggregator / statistics modules and of shutil as an additional scheduling point (sys.monitoring); noise mode (random sleeps at scheduling "
     "points between critical sections) on threads and on forked processes (multiprocessing.Process and NonDaemonicPool as in "
     "the example script), with and without split-write injection. Every subject has its own input, so a row identifies the "
     "evaluation that produced it. Non-trivial = schedule with at least one context switch between two workers' operations; "
@@ -518,11 +518,15 @@ def run(case, ctx):
     elif fam == "dfs":
         # preemption-bounded systematic search: 2 workers bound 2, 3 workers bound 1
         nw, bound = (2, 2) if i % 2 == 0 else (3, 1)
+        if ctx.tier == "thorough" and i % 8 == 5:
+            nw, bound = 3, 2
+        elif ctx.tier == "thorough" and i % 8 == 7:
+            nw, bound = 4, 1
         hist = {f"w{k}": [["eval", NAMES[(k + (i // 2)) % 2 if (i // 2) % 3 == 0 else k % 3]]] for k in range(nw)}
         if (i // 2) % 4 == 1:
             hist["w0"] = [["eval", "s0"], ["stat"]]
         dfs = sched.DFS(bound)
-        limit = 400 if ctx.tier == "quick" else 6000
+        limit = 400 if ctx.tier == "quick" else 8000
         n = 0
         while n < limit:
             strat = dfs.strategy()
